@@ -159,6 +159,8 @@ def main():
         for k, v in sw["keys"].items():
             e = sweep["keys"].setdefault(k, {"pos": []})
             e["pos"] = sorted(set(e["pos"]) | set(v["pos"]))
+    from vf import engine_fp
+    mir = engine_fp.Mir()
     entries = []
     untriaged = []
     used = set()
@@ -175,8 +177,18 @@ def main():
             continue
         used.add(hit[0])
         npos = len([p for p in v["pos"] if p not in ("root", "?")])
+        parts = key.split(" | ")
+        kind, msg, via = parts[1], None, []
+        for pp in parts[2:]:
+            if pp.startswith("via "):
+                via = pp[4:].split("+")
+            else:
+                msg = pp
+        fps = set()
+        for pos in v["pos"]:
+            fps.update(mir.fingerprints(pos, kind, msg, via))
         entries.append({"key": key, "status": "infeasible", "max_distinct_locations": npos,
-                        "applies": hit[1], "reason": hit[2]})
+                        "applies": hit[1], "reason": hit[2], "fingerprints": sorted(fps)})
     for i, r in enumerate(RULES):
         if i not in used:
             print("rule matched nothing:", r[0])
